@@ -6,6 +6,11 @@ import time
 from . import harness as H
 
 CHECKS = {
+    "C06:Bag.json": lambda: H.chk_tojson_frame("Bag"),
+    "C15:SparselyBin.json": lambda: H.chk_c15("SparselyBin"),
+    "C15:version": lambda: H.chk_version(),
+    "C04:Bag.json": lambda: H.chk_json("Bag", "reserialises-identically") or H.chk_json("Bag", "usable"),
+    "C15:Bag.json": lambda: H.chk_c15("Bag"),
     "C09:Bag.__eq__": lambda: H.chk_eq("Bag", "sound") or H.chk_eq("Bag", "complete") or H.chk_eq("Bag", "no-raise") or H.chk_eq("Bag", "sound", True) or H.chk_eq("Bag", "complete", True) or H.chk_eq("Bag", "no-raise", True),
     "C06:Bag.__eq__": lambda: H.chk_frame("Bag", "__eq__") or H.chk_frame("Bag", "__ne__"),
     "C17:string-expr": lambda: H.chk_c17("string-expr"),
